@@ -7,7 +7,8 @@ from debian_inspector import package
 ID = 'C17'
 LEVEL = 'proof'
 THEOREMS = [('DebInspector.Thm.C17', ['Props.C17.roundtrip', 'Props.C17.known_ending', 'Props.C17.accepted_fromString',
-                                      'Props.C17.sortA_perm', 'Props.C17.last_is_max', 'Props.C17.insertA_sorted'])]
+                                      'Props.C17.sortA_perm', 'Props.C17.last_is_max', 'Props.C17.insertA_sorted',
+                                      'Props.C17.soundB', 'Props.C17.known_decomp', 'Props.C17.stem_of', 'Props.C17.endings_apart'])]
 TRUSTED = [
     'Lean 4.33.0 kernel',
     'reading of the property as Props.C17.holdsOnA/B/C (spec-side file-name grammar written from the sentence, independent of the code tables)',
@@ -22,13 +23,16 @@ RULE = ('C17a: all endings x names with dots/plus x accepted versions (epochs, h
         'C17b: malformed shapes (wrong ending, 1 or 4+ parts, invalid versions, dots-only stems) and mutations of well-formed names; '
         'C17c: lists of 1-6 binary names with order-equal versions and epochs, all permutations for length <= 4. '
         'non-trivial = accepted file name / list with >= 2 distinct versions')
-TECHNIQUE = ('Lean 4 theorems: file-name round trip for every (directory, name, accepted version, architecture, ending) (roundtrip; the suffix tuples of get_nva are regenerated and re-checked by decide per ending); '
+TECHNIQUE = ('Lean 4 theorems: rejection of every name the property says must be rejected (soundB); file-name round trip for every (directory, name, accepted version, architecture, ending) (roundtrip; the suffix tuples of get_nva are regenerated and re-checked by decide per ending); '
              'selection: insertion sort is a permutation, last element is a maximum + executable spec on every implementation observation + correspondence with the hand model of get_nva')
 LEVEL_TEXT = ('Props.C17.roundtrip: for every directory prefix, package name without underscore or slash, version that C03 says must be accepted (any epoch, hyphenated upstream, tildes, dots - including ".tar." inside the version), '
               'architecture (binary packages) and each of the thirteen endings, the model of DebArchive.from_filename returns exactly that name, dpkg\'s decomposition of that version, that architecture and the original path '
               '(known_ending: each ending is recognised and peeled off exactly - last dot, last underscore, last ".tar." then ".orig"/".debian" - proved per ending by decide against the regenerated tuples of get_nva; accepted_fromString from the C03 theorems). '
               'Selection: the model sort is a permutation of its input and, under the tuple order, the last element of the sorted list is a maximum of the version order for every list of archives of one name (last_is_max). '
-              'The rejection clause (holdsOnB) and the per-name variant are decided by the executable specification on every implementation observation and by correspondence, not by theorem.')
+              'Props.C17.soundB: every file name with no recognised extension or suffix, with a stem that is not two or three underscore-separated parts, or whose version part is not a valid version raises ValueError '
+              '(known_decomp: whenever get_nva recognises a base name with an underscore, the name is that stem plus exactly one of the thirteen endings - the last dot, the last underscore, the last ".tar." being the ones of the ending; '
+              'stem_of / endings_apart: no ending is a suffix of another, so the specification reads the same stem; an accepted version part is valid by the C03 theorems). '
+              'The grouping by name of find_latest_versions is decided by the executable specification on every implementation observation and by correspondence.')
 LEVEL_NOTE = ('Trusted: Lean kernel; axioms propext, Classical.choice, Quot.sound only; os.path.basename/splitext modelled; Timsort and groupby are trusted.')
 
 ENDINGS_BIN = ['.deb', '.udeb']
